@@ -23,6 +23,11 @@ func (d eventData) Get(path ...string) []byte {
 	}
 	if !node.IsNull() {
 		data = node.AsBytes()
+		if data == nil && node != nil {
+			// an empty string written by an action (MutateToString("")) has no
+			// data pointer; it is a present, empty value, not an absent field
+			data = []byte{}
+		}
 	}
 	return data
 }
